@@ -11,6 +11,7 @@ import (
 	"path/filepath"
 	"regexp"
 	"runtime"
+	"runtime/pprof"
 	"sort"
 	"strconv"
 	"strings"
@@ -37,28 +38,28 @@ func envOr(k, d string) string {
 }
 
 type TierCfg struct {
-	Params    map[string]int64 `json:"params"`
-	Steps     int64            `json:"steps"`
-	MaxPaths  int              `json:"max_paths"`
-	SolverMs  int              `json:"solver_ms"`
-	BudgetS   int              `json:"budget_s"`
-	Witnesses int              `json:"witnesses"`
-	Skip      bool             `json:"skip"`
-	Bounds    string           `json:"bounds"`
-	Workers   int              `json:"workers"`
-	ReverseMaps bool           `json:"reverse_maps"`
-	Solvers   []string         `json:"solvers"`
+	Params      map[string]int64 `json:"params"`
+	Steps       int64            `json:"steps"`
+	MaxPaths    int              `json:"max_paths"`
+	SolverMs    int              `json:"solver_ms"`
+	BudgetS     int              `json:"budget_s"`
+	Witnesses   int              `json:"witnesses"`
+	Skip        bool             `json:"skip"`
+	Bounds      string           `json:"bounds"`
+	Workers     int              `json:"workers"`
+	ReverseMaps bool             `json:"reverse_maps"`
+	Solvers     []string         `json:"solvers"`
 	// GenInclude: generated harnesses (names containing "_Parse_" / "_Model_") run only if they contain one of these substrings
-	GenInclude []string        `json:"gen_include"`
+	GenInclude []string `json:"gen_include"`
 }
 
 type HarnessCfg struct {
-	Race          bool     `json:"race"` // build the native replay binary with -race (all harnesses of the package dir)
-	Quick         *TierCfg `json:"quick"`
-	Thorough      *TierCfg `json:"thorough"`
-	LooseWitness  bool     `json:"loose_witness"`
-	NoReplay      bool     `json:"no_replay"`
-	Doc           string   `json:"doc"`
+	Race         bool     `json:"race"` // build the native replay binary with -race (all harnesses of the package dir)
+	Quick        *TierCfg `json:"quick"`
+	Thorough     *TierCfg `json:"thorough"`
+	LooseWitness bool     `json:"loose_witness"`
+	NoReplay     bool     `json:"no_replay"`
+	Doc          string   `json:"doc"`
 }
 
 type PropCfg struct {
@@ -95,6 +96,14 @@ func main() {
 	}
 	switch os.Args[1] {
 	case "run":
+		if pf := os.Getenv("VERIF_CPUPROFILE"); pf != "" {
+			f, _ := os.Create(pf)
+			pprof.StartCPUProfile(f)
+			rc := cmdRun(os.Args[2:])
+			pprof.StopCPUProfile()
+			f.Close()
+			os.Exit(rc)
+		}
 		os.Exit(cmdRun(os.Args[2:]))
 	case "replay":
 		os.Exit(cmdReplay(os.Args[2:]))
@@ -190,6 +199,7 @@ func cmdRun(args []string) int {
 	verbose := fs.Bool("v", false, "verbose")
 	workers := fs.Int("workers", 0, "worker goroutines")
 	noReplay := fs.Bool("no-replay", false, "skip native replays (development)")
+	pathOf := fs.String("path-of", "", "debugging: re-run only the path recorded in this replay file (no evidence is written)")
 	var id string
 	if len(args) > 0 && !strings.HasPrefix(args[0], "-") {
 		id = args[0]
@@ -205,6 +215,15 @@ func cmdRun(args []string) int {
 	seed, _ := strconv.Atoi(envOr("VERIF_SEED", "0"))
 	t0 := time.Now()
 	r := &runner{id: id, tier: *tier, only: *only, verbose: *verbose, workers: *workers, seed: seed, noReplay: *noReplay}
+	if *pathOf != "" {
+		var rc replayCase
+		data, err := os.ReadFile(*pathOf)
+		if err != nil || json.Unmarshal(data, &rc) != nil || rc.Path == nil {
+			fmt.Println("INCONCLUSIVE cannot read a path from", *pathOf)
+			return 2
+		}
+		r.only, r.onlyPath, r.noReplay = rc.Harness, rc.Path, true
+	}
 	code := r.run()
 	fmt.Printf("vcheck %s tier=%s exit=%d wall=%.1fs\n", id, *tier, code, time.Since(t0).Seconds())
 	return code
@@ -218,6 +237,7 @@ type runner struct {
 	workers  int
 	seed     int
 	noReplay bool
+	onlyPath []uint64
 	cfg      PropCfg
 	hfs      []harnessFile
 	tmp      string
@@ -226,25 +246,25 @@ type runner struct {
 }
 
 type harnessReport struct {
-	Name         string         `json:"name"`
-	Paths        int            `json:"paths"`
-	Completed    int            `json:"completed"`
-	Infeasible   int            `json:"infeasible"`
-	Decisions    int64          `json:"decisions"`
-	Steps        int64          `json:"ssa_instructions"`
-	Obligations  map[string]int `json:"obligations_hit"`
-	Proved       map[string]int `json:"obligations_proved_unsat_or_trivial"`
-	Queries      map[string]int `json:"queries"`
-	SolverS      float64        `json:"solver_time_s"`
-	WallS        float64        `json:"wall_s"`
-	Bounds       string         `json:"bounds"`
+	Name         string           `json:"name"`
+	Paths        int              `json:"paths"`
+	Completed    int              `json:"completed"`
+	Infeasible   int              `json:"infeasible"`
+	Decisions    int64            `json:"decisions"`
+	Steps        int64            `json:"ssa_instructions"`
+	Obligations  map[string]int   `json:"obligations_hit"`
+	Proved       map[string]int   `json:"obligations_proved_unsat_or_trivial"`
+	Queries      map[string]int   `json:"queries"`
+	SolverS      float64          `json:"solver_time_s"`
+	WallS        float64          `json:"wall_s"`
+	Bounds       string           `json:"bounds"`
 	Params       map[string]int64 `json:"params,omitempty"`
-	Exhausted    bool           `json:"exhausted"`
-	Inconclusive []string       `json:"inconclusive,omitempty"`
-	Witnesses    int            `json:"witness_replays_matched"`
-	WitnessBad   int            `json:"witness_replays_mismatched"`
-	Dropped      int            `json:"goroutines_dropped"`
-	Violations   []string       `json:"violations,omitempty"`
+	Exhausted    bool             `json:"exhausted"`
+	Inconclusive []string         `json:"inconclusive,omitempty"`
+	Witnesses    int              `json:"witness_replays_matched"`
+	WitnessBad   int              `json:"witness_replays_mismatched"`
+	Dropped      int              `json:"goroutines_dropped"`
+	Violations   []string         `json:"violations,omitempty"`
 }
 
 func (r *runner) tierCfg(h string) *TierCfg {
@@ -401,6 +421,10 @@ func (r *runner) run() int {
 		cfg := &sym.Config{Harness: name, Entry: fn, StepBudget: tc.Steps, MaxPaths: tc.MaxPaths, Workers: w, SolverMs: tc.SolverMs,
 			Params: tc.Params, Deadline: time.Now().Add(time.Duration(tc.BudgetS) * time.Second), Witnesses: tc.Witnesses, Verbose: r.verbose,
 			ReverseMaps: tc.ReverseMaps, Solvers: kinds}
+		if r.onlyPath != nil {
+			cfg.OnlyPath = r.onlyPath
+			cfg.Workers = 1
+		}
 		res := sym.Explore(prog, cfg)
 		rep := &harnessReport{Name: name, Paths: res.Paths, Completed: res.Completed, Infeasible: res.Infeasible, Decisions: res.Decisions, Steps: res.Steps,
 			Obligations: res.Hits, Proved: res.Proved, Queries: map[string]int{"sat": res.Solver.Sat, "unsat": res.Solver.Unsat, "unknown": res.Solver.Unknown, "errors": res.Solver.Errors},
@@ -488,7 +512,9 @@ func (r *runner) run() int {
 	for _, s := range inconc {
 		fmt.Println("INCONCLUSIVE", s)
 	}
-	r.writeEvidence(reports, funcs, samples, nviol, time.Since(t0), inconc)
+	if r.onlyPath == nil {
+		r.writeEvidence(reports, funcs, samples, nviol, time.Since(t0), inconc)
+	}
 	_ = loadS
 	return exit
 }
@@ -533,6 +559,7 @@ type replayCase struct {
 	Dir     string           `json:"dir"`
 	Prop    string           `json:"property"`
 	PC      []string         `json:"path_condition_prefix,omitempty"`
+	Path    []uint64         `json:"path,omitempty"`
 }
 
 func (r *runner) dirOf(fn *ssa.Function) string {
@@ -540,7 +567,7 @@ func (r *runner) dirOf(fn *ssa.Function) string {
 }
 
 func (r *runner) confirm(fn *ssa.Function, name string, tc *TierCfg, v *sym.Violation, hc *HarnessCfg) *confirmed {
-	rc := replayCase{Harness: name, Nondet: v.Nondet, Params: tc.Params, Label: v.Label, Site: v.Site, Msg: v.Msg, Dir: r.dirOf(fn), Prop: r.id, PC: v.PC}
+	rc := replayCase{Harness: name, Nondet: v.Nondet, Params: tc.Params, Label: v.Label, Site: v.Site, Msg: v.Msg, Dir: r.dirOf(fn), Prop: r.id, PC: v.PC, Path: v.Path}
 	data, _ := json.MarshalIndent(rc, "", " ")
 	h := sha1.Sum([]byte(v.Key()))
 	dir := filepath.Join(verifDir, "replays", r.id)
@@ -873,7 +900,9 @@ func (r *runner) writeEvidence(reports []*harnessReport, funcs map[string]int64,
 		}
 		fl = append(fl, fc{k, v})
 	}
-	sort.Slice(fl, func(i, j int) bool { return fl[i].Calls > fl[j].Calls || fl[i].Calls == fl[j].Calls && fl[i].Name < fl[j].Name })
+	sort.Slice(fl, func(i, j int) bool {
+		return fl[i].Calls > fl[j].Calls || fl[i].Calls == fl[j].Calls && fl[i].Name < fl[j].Name
+	})
 	nfuncs := len(fl)
 	if len(fl) > 60 {
 		fl = fl[:60]
